@@ -120,6 +120,13 @@ class SConst(Val):
 
 
 @dataclass
+class SSplit(Val):
+    """s.split(sep, 1): one or two parts depending on whether sep occurs in s"""
+    s: Any
+    sep: Any
+
+
+@dataclass
 class SOpaque(Val):
     """a value the engine does not interpret (e.g. a compiled regex object, a project)"""
     tag: str
